@@ -17,6 +17,8 @@ enum Op {
     Del(String),
     Exists(String),
     Scan(String),
+    /// scan_filter_map(prefix): keys WITH their values, in one call
+    ScanVals(String),
 }
 
 /// value number n under key k; `emb:` keys carry a full-dimension vector *and* a tag field, so a
@@ -47,6 +49,8 @@ enum Res {
     Mixture(String),
     Bool(bool),
     Keys(Vec<String>),
+    /// (key, which write its value comes from; None = a mixture)
+    KeyVals(Vec<(String, Option<u32>)>),
 }
 
 #[derive(Clone, Debug, Serialize, Deserialize)]
@@ -75,6 +79,7 @@ fn apply_ref(m: &mut Ref, op: &Op) -> Res {
         }
         Op::Exists(k) => Res::Bool(m.contains_key(k)),
         Op::Scan(p) => Res::Keys(m.keys().filter(|k| k.starts_with(p.as_str())).cloned().collect()),
+        Op::ScanVals(p) => Res::KeyVals(m.iter().filter(|(k, _)| k.starts_with(p.as_str())).map(|(k, n)| (k.clone(), Some(*n))).collect()),
     }
 }
 
@@ -114,6 +119,9 @@ struct Program {
     init: Vec<String>,
     threads: Vec<Vec<Op>>,
     durable: bool,
+    /// the store answers get/exists through a Bloom filter
+    #[serde(default)]
+    bloom: bool,
 }
 
 fn do_op(s: &TensorStore, op: &Op, durable: bool) -> Res {
@@ -140,6 +148,11 @@ fn do_op(s: &TensorStore, op: &Op, durable: bool) -> Res {
             let mut v = s.scan(p);
             v.sort();
             Res::Keys(v)
+        }
+        Op::ScanVals(p) => {
+            let mut v: Vec<(String, Option<u32>)> = s.scan_filter_map(p, |k, d| Some((k.to_string(), decode(k, d))));
+            v.sort();
+            Res::KeyVals(v)
         }
     }
 }
@@ -177,6 +190,7 @@ fn classify(p: &Program, evs: &[Ev]) -> String {
         Op::Exists(..) => "exists",
         Op::Scan(pre) if pre.is_empty() => "scan-all",
         Op::Scan(..) => "scan-prefix",
+        Op::ScanVals(..) => "scan-with-values",
     }).collect();
     let class = p.threads.iter().flatten().find_map(|o| match o {
         Op::Put(k, _) | Op::Get(k) | Op::Del(k) | Op::Exists(k) => Some(k.split(':').next().filter(|_| k.contains(':')).unwrap_or("plain").to_string()),
@@ -197,11 +211,20 @@ fn explore_program(p: &Program, bound: usize, dir: &str, st: &mut WStats) {
     let hist: Arc<Mutex<Vec<Ev>>> = Arc::new(Mutex::new(vec![]));
     let wal_path = format!("{dir}/c11.wal");
     let prog = p.clone();
+    // Bloom-filter programs: lock releases are scheduling points too (the filter is updated with atomics only,
+    // after the last unlock of the put)
+    vsched::set_release_points(p.bloom);
     let stats = vsched::explore(&ExploreCfg { bound, part: (0, 1), max_execs: 3_000_000 }, || {
         hist.lock().unwrap().clear();
         let store = if prog.durable {
             let _ = std::fs::remove_file(&wal_path);
-            Arc::new(TensorStore::open_durable(&wal_path, WalConfig::default()).expect("open_durable"))
+            if prog.bloom {
+                Arc::new(TensorStore::open_durable_with_bloom(&wal_path, WalConfig::default(), 1000, 0.01).expect("open_durable_with_bloom"))
+            } else {
+                Arc::new(TensorStore::open_durable(&wal_path, WalConfig::default()).expect("open_durable"))
+            }
+        } else if prog.bloom {
+            Arc::new(TensorStore::with_bloom_filter(1000, 0.01))
         } else {
             Arc::new(TensorStore::new())
         };
@@ -274,6 +297,7 @@ fn explore_program(p: &Program, bound: usize, dir: &str, st: &mut WStats) {
         });
         (bodies, check as Box<dyn FnOnce(&RunResult) -> Verdict>)
     });
+    vsched::set_release_points(false);
     st.programs += 1;
     st.executions += stats.executions;
     st.sched_points += stats.sched_points;
@@ -319,11 +343,15 @@ fn programs(thorough: bool) -> Vec<Program> {
                 continue;
             }
             let mut add = |name: &str, init: Vec<&str>, threads: Vec<Vec<Op>>| {
-                v.push(Program { name: format!("{cls}{}:{name}", if durable { "+wal" } else { "" }), init: init.into_iter().map(String::from).collect(), threads, durable });
+                v.push(Program { name: format!("{cls}{}:{name}", if durable { "+wal" } else { "" }), init: init.into_iter().map(String::from).collect(), threads, durable, bloom: name.starts_with("bloom:") });
             };
             add("put-put-get", vec![], vec![vec![put(k1, 1), get(k1)], vec![put(k1, 2), get(k1)]]);
             add("put-delete", vec![k1], vec![vec![put(k1, 1), get(k1)], vec![del(k1), ex(k1)]]);
             add("delete-delete", vec![k1], vec![vec![del(k1)], vec![del(k1)]]);
+            if matches!(cls, "plain" | "node" | "table") {
+                // the value-carrying scan (it walks the metadata slab only, so only these key classes)
+                add("two-keys-scan-with-values", vec![k1, k2], vec![vec![put(k1, 1), put(k2, 1)], vec![Op::ScanVals(pre.to_string()), get(k2)]]);
+            }
             add("put-vs-delete-of-absent-key", vec![], vec![vec![put(k1, 1)], vec![del(k1), ex(k1)]]);
             if cls == "emb" {
                 add("overwrite-by-vectorless-value", vec![k1], vec![vec![put(k1, 100), get(k1)], vec![get(k1)]]);
@@ -337,6 +365,11 @@ fn programs(thorough: bool) -> Vec<Program> {
             if !durable {
                 add("cross-shard-scan-all", vec![], vec![vec![put(k1, 1), put(other, 2)], vec![scan(""), ex(k1)]]);
                 add("exists-vs-put-delete", vec![], vec![vec![put(k1, 1), del(k1)], vec![ex(k1), get(k1)]]);
+            }
+            if cls == "plain" {
+                // the same store behind a Bloom filter: scans list a key, so get/exists must admit it
+                add("bloom:scan-then-get", vec![], vec![vec![put(k1, 1)], vec![scan(pre), ex(k1), get(k1)]]);
+                add("bloom:put-delete", vec![k1], vec![vec![put(k1, 1), get(k1)], vec![del(k1), ex(k1)]]);
             }
             if thorough {
                 add("overwrite-readers", vec![k1], vec![vec![put(k1, 1), put(k1, 2)], vec![get(k1), get(k1)]]);
